@@ -57,6 +57,11 @@ const (
 	// builder.initTLSManager panics at start-up.
 	vc20KnownNoTLSSection = "no-tls-section-nil-dereference"
 
+	// ddrRecord.validate accepts an IPv4-mapped IPv6 address in ipv6_hints
+	// (netip.Addr.Is6 is true for it); the SVCB ipv6hint of the DDR answer
+	// cannot be packed with it.
+	vc20KnownDDRMappedHint = "ddr-ipv6-hint-ipv4-mapped"
+
 	// ratelimitTCPConfig.validate has no upper bound for max_pipeline_count;
 	// the TCP and TLS servers make a channel of that capacity for every
 	// connection.
@@ -479,6 +484,46 @@ func vc20Requirements() (reqs []vc20Requirement) {
 	}
 
 	reqs = append(reqs, vc20Requirement{
+		name: "ddr ipv4_hints are IPv4 addresses and ipv6_hints are IPv6 addresses",
+		broken: func(c *configuration) (bool, string) {
+			for _, g := range c.ServerGroups {
+				for _, recs := range []map[string]*ddrRecord{g.DDR.DeviceRecords, g.DDR.PublicRecords} {
+					for name, r := range recs {
+						for _, a := range r.IPv4Hints {
+							if !a.Is4() {
+								return true, fmt.Sprintf("%s: ipv4 hint %q", name, a)
+							}
+						}
+
+						for _, a := range r.IPv6Hints {
+							if !a.Is6() {
+								return true, fmt.Sprintf("%s: ipv6 hint %q", name, a)
+							}
+						}
+					}
+				}
+			}
+
+			return false, ""
+		},
+	}, vc20Requirement{
+		name: "ddr ipv6_hints can be sent as an SVCB ipv6hint (are not IPv4-mapped)", finding: vc20KnownDDRMappedHint,
+		broken: func(c *configuration) (bool, string) {
+			for _, g := range c.ServerGroups {
+				for _, recs := range []map[string]*ddrRecord{g.DDR.DeviceRecords, g.DDR.PublicRecords} {
+					for name, r := range recs {
+						for _, a := range r.IPv6Hints {
+							if a.Is4In6() {
+								return true, fmt.Sprintf("%s: ipv6 hint %q", name, a)
+							}
+						}
+					}
+				}
+			}
+
+			return false, ""
+		},
+	}, vc20Requirement{
 		name: "names of server groups, of the servers of a group, and ids of filtering groups are unique and not empty",
 		broken: func(c *configuration) (bool, string) {
 			grpNames := map[string]struct{}{}
@@ -1173,7 +1218,8 @@ const vc20Rule = "mutations of config.dist.yaml over an automatically extracted 
 // TestVerifC20Singles enumerates every single-field mutation of the catalogue.
 func TestVerifC20Singles(t *testing.T) {
 	st := vstat.New("C20", "cmd.singles", "bounded-exhaustive: every catalogue field x every mutation value, one at a time; "+vc20Rule,
-		"accepted", "client-ipv4-mapped", "rejected-named", "rejected-parse", "exercise-full", "dot-real-answered", "doh-real-answered", "doq-real-answered", "dnscrypt-real-answered",
+		"accepted", "client-ipv4-mapped", "ddr-query-served", "ddr-device-query-served", "dnscheck-query-served", "val:empty-list-element", "val:null-list-element", "val:wrong-family",
+		"rejected-named", "rejected-parse", "exercise-full", "dot-real-answered", "doh-real-answered", "doq-real-answered", "dnscrypt-real-answered",
 		"val:zero", "val:neg", "val:missing", "val:null", "val:huge", "val:max-family-1", "val:max-family+1",
 		"val:limit-1", "val:limit+1", "val:duplicate-element", "val:wrong-enum", "val:dangling-ref",
 		"kind:prefixlen", "kind:duration", "kind:size", "kind:count", "kind:enum", "kind:xref", "kind:node",
@@ -1206,7 +1252,7 @@ func TestVerifC20Singles(t *testing.T) {
 // must be greater than zero").
 func TestVerifC20Switches(t *testing.T) {
 	st := vstat.New("C20", "cmd.switches", "bounded-exhaustive: per mapping, every (bool or enum child, other child: scalar, list or object) pair x all values of both; "+vc20Rule,
-		"accepted", "client-ipv4-mapped", "rejected-named", "exercise-full", "kind:enum", "kind:bool", "kind:node", "val:zero", "val:flip", "val:other-enum",
+		"accepted", "client-ipv4-mapped", "ddr-query-served", "rejected-named", "exercise-full", "kind:enum", "kind:bool", "kind:node", "val:zero", "val:flip", "val:other-enum",
 		"val:set-true", "val:null")
 	st.SetExhaustive()
 	st.Finish(t)
@@ -1420,7 +1466,7 @@ func (fx *vc20Fixture) vc20ProtocolSet(
 // crossed with the states of the group's tls section.
 func TestVerifC20ProtocolSets(t *testing.T) {
 	st := vstat.New("C20", "cmd.protocolsets", "bounded-exhaustive: server group = every single server variant and every pair (dns/tls/https/quic/dnscrypt x addresses/interfaces x fitting/unfitting sections) x tls section present/absent/null/empty/without certificates; real listeners of every protocol are started and queried; "+vc20Rule,
-		"accepted", "client-ipv4-mapped", "rejected-named", "exercise-full", "quic-only-group", "only-tls-user:tls", "only-tls-user:https", "no-tls-user",
+		"accepted", "client-ipv4-mapped", "ddr-query-served", "rejected-named", "exercise-full", "quic-only-group", "only-tls-user:tls", "only-tls-user:https", "no-tls-user",
 		"tls-section:present", "tls-section:absent", "tls-section:empty",
 		"dns-real-answered", "dot-real-answered", "doh-real-answered", "doq-real-answered", "dnscrypt-real-answered")
 	st.SetExhaustive()
@@ -1463,7 +1509,7 @@ func TestVerifC20ProtocolSets(t *testing.T) {
 // orders.
 func TestVerifC20Thresholds(t *testing.T) {
 	st := vstat.New("C20", "cmd.thresholds", "bounded-exhaustive: per mapping, every pair of integer siblings x boundary values {0,1,2,3,each original and its neighbours,2^31-1,2^63-1} of both; "+vc20Rule,
-		"accepted", "client-ipv4-mapped", "rejected-named", "exercise-full", "threshold-pair",
+		"accepted", "client-ipv4-mapped", "ddr-query-served", "rejected-named", "exercise-full", "threshold-pair",
 		"val:zero", "val:below-sibling", "val:equal-sibling", "val:above-sibling")
 	st.SetExhaustive()
 	st.Finish(t)
@@ -1493,8 +1539,9 @@ func TestVerifC20Thresholds(t *testing.T) {
 // TestVerifC20Mutate draws subsets of one to four fields and threshold pairs.
 func TestVerifC20Mutate(t *testing.T) {
 	st := vstat.New("C20", "cmd.mutate", "rapid: 1-4 fields (biased to one), properties of one object, a pair of sibling thresholds in all orders, or a generated server group of 1-3 servers x tls section states; "+vc20Rule,
-		"accepted", "client-ipv4-mapped", "rejected-named", "rejected-parse", "exercise-full", "threshold-pair",
+		"accepted", "client-ipv4-mapped", "ddr-query-served", "rejected-named", "rejected-parse", "exercise-full", "threshold-pair",
 		"dot-real-answered", "doh-real-answered", "doq-real-answered", "dnscrypt-real-answered", "quic-only-group",
+		"val:empty-list-element", "val:wrong-family",
 		"mutations:1", "mutations:2", "mutations:3",
 		"val:zero", "val:neg", "val:missing", "val:null", "val:huge",
 		"kind:prefixlen", "kind:duration", "kind:size", "kind:count", "kind:enum", "kind:xref",
